@@ -55,6 +55,7 @@ type Params struct {
 	// third lifetime
 	ReplayP      float64 // read-only replay of L2's values
 	CleanAgainP  float64
+	PreDeleteP   float64 // a standalone file is removed by hand before a lifetime
 	ExtraLifeP   float64 // a further edited run with another environment before the closing replay
 	NonTestNames bool
 }
@@ -703,6 +704,9 @@ func World(seed uint64, index int, p *Params) *check.World {
 	}
 	if r.Bool(p.FaultP) {
 		l2.Faults = b.faults(prog2, r.Bool(p.KillP))
+	}
+	if r.Bool(p.PreDeleteP) {
+		l2.PreDelete = 1 + r.Intn(50)
 	}
 	w.Lifetimes = append(w.Lifetimes, l2)
 	if r.Bool(p.ExtraLifeP) {
